@@ -18,7 +18,7 @@ import StorageModel.Query.BoltProofs
       (`scanner.setPaging`: `SetSkip(0)` when absent, `SetLimit(MaxInt64)` when absent or negative) — in objectz always, in
       boltz whenever the entities bucket exists.
 
-  `step` / `history` follow exactly that.  `specStep` / `specHistory` are the specification of "no call depends on an
+  `step` / `history` follow exactly that.  `specStep` / `objSpecHistory` are the specification of "no call depends on an
   earlier one": the only things that evolve are what the CALLER changed (the collection, the text parsed into a slot, the
   skip / limit set on it), and every answer is the STAND-ALONE answer (`standAlone`) of the call's request on the
   collection as it is now.
@@ -247,10 +247,10 @@ def specStep {Text : Type} (parse : Text → Option CQuery) (opf bpf : PagingFac
   | .setSkip k v => ({ st with slots := setSlot st.slots k ((st.slots k).map (withSkip · v)) }, .done)
   | .setLimit k v => ({ st with slots := setSlot st.slots k ((st.slots k).map (withLimit · v)) }, .done)
 
-def specHistory {Text : Type} (parse : Text → Option CQuery) (opf bpf : PagingFacts) (W : HStores) :
+def objSpecHistory {Text : Type} (parse : Text → Option CQuery) (opf bpf : PagingFacts) (W : HStores) :
     HState → List (Call Text) → List Answer
   | _, [] => []
-  | st, c :: cs => (specStep parse opf bpf W st c).2 :: specHistory parse opf bpf W (specStep parse opf bpf W st c).1 cs
+  | st, c :: cs => (specStep parse opf bpf W st c).2 :: objSpecHistory parse opf bpf W (specStep parse opf bpf W st c).1 cs
 
 /-! ### the invariant: a query object and its request mean the same targets -/
 
@@ -391,12 +391,12 @@ theorem stateAgrees_refl (st : HState) : StateAgrees st st := ⟨rfl, rfl, fun _
     `Properties/C19.lean` states it for the regenerated facts) -/
 theorem history_eq_spec {Text : Type} (parse : Text → Option CQuery) (W : HStores) (calls : List (Call Text)) :
     ∀ sm ss : HState, StateAgrees sm ss →
-      history parse expectedPaging expectedPaging W sm calls = specHistory parse expectedPaging expectedPaging W ss calls := by
+      history parse expectedPaging expectedPaging W sm calls = objSpecHistory parse expectedPaging expectedPaging W ss calls := by
   induction calls with
   | nil => intros; rfl
   | cons c cs ih =>
     intro sm ss h
-    simp only [history, specHistory]
+    simp only [history, objSpecHistory]
     have := step_spec parse W h c
     rw [this.1, ih _ _ this.2]
 
